@@ -35,6 +35,7 @@ SEEDS = {
     "C14b-sigint-ignored-during-append": ("C14", "a single signal arriving between the appends of an output block or of the final block (SIGINT set to SIG_IGN there): it is dropped", []),
     "C06b-exact-fit-last-cell": ("C06", "the last bucket ends exactly at the end of the padded buffer and its last profile cell is non-zero: that cell is not copied", ["C18"]),
     "C03b-bunchlength-from-option-alpha0": ("C03", "synchrotron frequency given with -f (far from what the alpha0 option implies, or many steps) together with the sinusoidal RF model: the kick slope follows the alpha0 option, drift and time step follow -f", ["C10"]),
+    "C12b-projection-refresh-skipped": ("C12", "no wake impedance at all, RenormalizeCharge>0 and two cadences that do not both cover every renormalisation step: the renormalisation factor is taken from a stale projection", ["C10"]),
     "C10-": ("C10", "", []),
     "C17-": ("C17", "", []),
 }
